@@ -181,7 +181,7 @@ func buildSim(scr string, race bool) (string, error) {
 		if _, err := run("", "rsync", "-a", "--delete", "--exclude", ".git", repoDir+"/", copyDir+"/"); err != nil {
 			return "", err
 		}
-		if out, err := run("", instr, "-dir", copyDir, "-simrt", filepath.Join(verifDir, "simrt"), "-sites", filepath.Join(scr, "sites.json")); err != nil {
+		if out, err := run("", instr, fmt.Sprintf("-race=%v", race), "-dir", copyDir, "-simrt", filepath.Join(verifDir, "simrt"), "-sites", filepath.Join(scr, "sites.json")); err != nil {
 			return "", fmt.Errorf("instrumenter failed: %v\n%s", err, out)
 		}
 	}
@@ -317,7 +317,9 @@ func runSpec(bin, sim, prop string, spec []byte, dir string, events bool) (resul
 	f.Write(spec)
 	f.Close()
 	defer os.Remove(f.Name())
-	args := []string{"run", "-sim", sim, "-prop", prop, "-spec", f.Name()}
+	resFile := f.Name() + ".result"
+	defer os.Remove(resFile)
+	args := []string{"run", "-sim", sim, "-prop", prop, "-spec", f.Name(), "-out", resFile}
 	if events {
 		args = append(args, "-events")
 	}
@@ -336,6 +338,9 @@ func runSpec(bin, sim, prop string, spec []byte, dir string, events bool) (resul
 		return result{}, stderr.String(), fmt.Errorf("run timed out")
 	}
 	var r result
+	if b, rerr := os.ReadFile(resFile); rerr == nil {
+		out = b
+	}
 	if jerr := json.Unmarshal(lastLine(out), &r); jerr != nil {
 		return r, stderr.String(), fmt.Errorf("simbin run: %v (%v) stderr: %s", jerr, err, stderr.String())
 	}
@@ -547,7 +552,7 @@ func runCheck(id, tier string, cfg propCfg) int {
 		}
 		// confirm in a fresh process (try up to 3 records of this signature)
 		confirmed := -1
-		for k := 0; k < len(recs) && k < 3; k++ {
+		for k := 0; k < len(recs) && k < 8; k++ {
 			r, _, err := runSpec(bin, cfg.Sim, id, recs[k].Spec, scr, false)
 			if err == nil && hasSig(r, id, sig) {
 				confirmed = k
